@@ -180,6 +180,7 @@ func (fr *Frame) doAlloc(elem types.Type, hint string, ptrType types.Type) *Val 
 
 func (fr *Frame) indexAddr(i *ssa.IndexAddr) *Val {
 	x := fr.value(i.X)
+	fr.seedVal(fr.value(i.Index)) // indices are worth seeding
 	idx := fr.scalar(fr.value(i.Index))
 	switch xt := i.X.Type().Underlying().(type) {
 	case *types.Slice:
